@@ -323,6 +323,10 @@ def truth(ctx, st, x):
 # ---------------------------------------------------------------------------
 # the interpreter
 
+# decorators that leave the behaviour of a call of the decorated body unchanged (or are modelled by hooks: contextmanager)
+TRANSPARENT_DECORATORS = {"staticmethod", "classmethod", "property", "contextlib.contextmanager", "contextmanager", "_checks_drafts",
+                          "attr.s", "attr.attrs", "validates", "functools.wraps", "wraps"}
+
 UNITS_READ = set()      # every function body executed in this process since the last reset (cache validation, pyvc/driver.py)
 
 
@@ -1101,6 +1105,12 @@ class Interp:
         unit = self.repo.units.get(f.key)
         if unit is None:
             raise OutOfSubset("no source for %s" % f.key)
+        # a decorator may change what calling the name means (memoisation, wrapping): only those known to leave the
+        # call semantics of the body alone are looked through
+        for dec in getattr(unit.node, "decorator_list", []) or []:
+            dn = ast.unparse(dec.func if isinstance(dec, ast.Call) else dec)
+            if dn not in TRANSPARENT_DECORATORS and dn not in self.ctx.config.get("transparent_decorators", ()):
+                raise OutOfSubset("function %s is decorated with %s, whose effect on calls is not modelled" % (f.key, dn))
         if self.ctx.inline_depth > 6:
             raise OutOfSubset("inlining too deep (recursive function without a contract?): %s" % f.key)
         args = [self.force(st, a) for a in args]
